@@ -211,28 +211,44 @@ class C09(Property):
     quick_cases = 700
     thorough_cases = 8000
     design_ref = "DESIGN.md §6/C09"
-    level_text = ("Unbounded Rocq theorems (every list of Handle calls, every request method and path): the per-method search "
-                  "tries built by Handle represent exactly the accepted (method, cleaned pattern) routes; for tables with one "
-                  "variable name per position the response is the same whatever order Go iterates its maps in, a handler runs "
-                  "iff a route of the method matches the cleaned path, it is the literal-over-variable best match, it receives "
-                  "exactly that route's bindings, otherwise 405 with exactly the other matching methods or 404; duplicate / "
-                  "bad method / unrooted pattern are rejected and leave the router unchanged. Tied to the Go code by "
-                  "differential execution of generated route tables and requests through router.NewRouter()+httptest.")
+    level_text = ("Unbounded Rocq theorems. Router (every list of Handle calls, every request method and path): the per-method "
+                  "search tries represent exactly the accepted (method, cleaned pattern) routes; inside the side condition the "
+                  "response does not depend on Go's map order and equals the executable reference spec_serve (best_of / binds / "
+                  "allow_spec over the plain route list): a handler runs iff a route of the method matches the cleaned path, it "
+                  "is the literal-over-variable best match, it receives exactly that route's bindings, otherwise 405 with exactly "
+                  "the other matching methods or 404; duplicate / bad method / unrooted pattern are rejected and leave the router "
+                  "unchanged. Server (every sequence of AddRoutes/AddRoute/Start events on any number of rest.Server instances, "
+                  "tables re-used, sub-sliced and shared, options in any order; heap model with aliasing): the user's tables are "
+                  "never written, Start binds exactly the union of the prefix-extended tables as written, and a started server "
+                  "answers by the same case table over that union. The boolean judgement prop_ok applies to observed responses is "
+                  "proved equivalent to the case table, and every answer of the verified model passes it. Tied to the Go code by "
+                  "differential execution through router.NewRouter() and rest.Server (NewServer/MustNewServer ... StartWithOpts) + httptest.")
     level_note = ("Trusted: Coq kernel + vm_compute; hand-written model (maps as association lists, the set of map-order-"
-                  "dependent results computed explicitly, path.Clean modelled for rooted paths and compared with Go's on every "
-                  "generated path); correspondence on generated tables only; net/http, context and pathvar plumbing not modelled.")
-    rule = ("cases: a table of <=12 Handle calls (methods GET/POST/PUT/DELETE + invalid, segments from {a,b,:x,:y,'',.,..}, depth<=4, "
-            "unrooted patterns, duplicates after cleaning) and <=14 requests (paths derived from the patterns and random, with //, "
-            "/./, /../, trailing /, unrooted, unknown methods); non-trivial = the accepted table is inside the side condition, "
-            "some method has a literal and a variable route competing at the same depth, and the requests produce at least one "
-            "dispatch with variables and one 405 or 404; distinct = canonical JSON hash of the case")
+                  "dependent results computed explicitly, path.Clean/path.Join modelled for rooted paths and compared with Go's on "
+                  "every generated path, slices as store + alias/fresh references); correspondence on generated cases only; "
+                  "net/http (request-line parsing, percent-decoding), context/pathvar plumbing and the per-route middleware chain "
+                  "(JWT, timeout, breaker, ...) are exercised but not modelled.")
+    rule = ("router cases: <=12 Handle calls (7 valid methods + invalid ones, segments from {a,b,:x,:y,'',.,..} plus unicode, spaces, "
+            "'%2F', ':' alone, 300-byte segments; depth<=4, a corpus table with 300 segments / 5000-byte segment; unrooted patterns, "
+            "duplicates after cleaning) and <=16 requests (paths derived from the patterns and random, case-swapped segments, //, /./, "
+            "/../, trailing /, unrooted, '*', unknown/custom methods; 20% sent as raw request targets through http.ReadRequest with "
+            "percent-encoding and query strings). server cases: 1-3 user tables, 1-3 servers (CORS variants, custom 404/405, Use, "
+            "WithChain, native middlewares, MustNewServer, WithRouter, WithFileServer, callbacks), 1-5 mounts re-using tables (whole or "
+            "sub-slice, AddRoutes or AddRoute, WithMiddlewares, WithPrefix once or twice among timeout/maxbytes/priority/sse/jwt/"
+            "jwt-transition/signature options in random order), Start of each server at a random point after its last mount; "
+            "requests to every server derived from its own routes, other servers' routes, stacked prefixes and the unprefixed tables. "
+            "non-trivial = inside the side condition, a literal and a variable route compete at the same depth, at least one dispatch "
+            "with variables and one 405 or 404 (server cases: a server started and some table is mounted more than once); "
+            "distinct = canonical JSON hash of the case")
     trusted_base = [
-        "model theories/C09/Model.v is hand-written; tie = correspondence run (harness/cmd/c09) on generated tables",
-        "path.Clean is modelled for rooted paths (Model.clean_path) and compared with Go's path.Clean on every generated pattern and path",
-        "net/http request plumbing, context.WithValue / pathvar.Vars and http.NotFound are exercised but not modelled",
+        "models theories/C09/Model.v and ServerModel.v are hand-written; tie = correspondence run (harness/cmd/c09) on generated cases",
+        "path.Clean / path.Join are modelled for rooted paths and compared with Go's on every generated pattern, prefix and path",
+        "net/http request plumbing (request-line parsing and percent-decoding into URL.Path), context.WithValue / pathvar.Vars and "
+        "http.NotFound are exercised but not modelled: the model starts from the URL.Path the server derived",
+        "constants (valid methods, Allow header and separator, 405, ':' and '/') are re-read from the source at every run (coq/gen/C09Consts.v)",
     ]
     assumptions = ["handlers are non-nil (errEmptyItem not modelled)",
-                   "a request is served after all registrations (Handle is not concurrent with ServeHTTP)"]
+                   "a request is served after all registrations (Handle is not concurrent with ServeHTTP); no AddRoutes after Start"]
 
     def regen(self, ctx):
         v, changed = regen_constants()
